@@ -28,7 +28,10 @@ Projects ==
    \* the banned directive has a fault of its own (a second Path parameter): the ban is enforced at the keyword and comes first
    p4 |-> [root |-> DocOf(<<"t1">>) \o << D("GET", <<"pa", "pb">>, "", FALSE, "", ""), D("RESP", <<"any">>, "", FALSE, "", "200"),
                                         IncTok("inc.jst"), D("TAG", <<"@g1">>, "", FALSE, "", "") >>,
-           inc |-> << D("URL", <<"pz", "pf">>, "", FALSE, "", ""), D("POST", <<>>, "", FALSE, "", "") >>]]
+           inc |-> << D("URL", <<"pz", "pf">>, "", FALSE, "", ""), D("POST", <<>>, "", FALSE, "", "") >>],
+   \* JSIGHT written in the included file (refused there by a rule of its own): when JSIGHT is banned, the ban comes first
+   p5 |-> [root |-> << IncTok("inc.jst"), D("GET", <<"pa">>, "", FALSE, "", ""), D("RESP", <<"any">>, "", FALSE, "", "200") >>,
+           inc |-> << D("JSIGHT", <<"0.3">>, "", FALSE, "", ""), D("TYPE", <<"@t1", "any">>, "", FALSE, "", "") >>]]
 
 Init == proj \in DOMAIN Projects /\ banned \in ({{k1, k2} : k1, k2 \in Kinds} \cup (IF Deep THEN {{k1, k2, k3} : k1, k2, k3 \in Kinds} ELSE {}))     \* singletons, pairs (and triples)
 Next == UNCHANGED vars
@@ -47,7 +50,7 @@ Occurs == \E f \in DOMAIN Content : \E x \in 1..Len(Content[f]) :
 BanRule == IF Occurs THEN SB.res = "err" /\ ( (SB.err.cls = "notallowed" /\ Content[SB.err.f][SB.err.i].k \in banned)
                                              \/ (S0.res = "err" /\ SB.err = S0.err) )
            ELSE SB = S0
-BaseOK == proj # "p4" => S0.res = "ok"
+BaseOK == proj \notin {"p4", "p5"} => S0.res = "ok"
 
 ASSUME PrintT("L " \o ToJson(PoolsJson))
 EmitInv == PrintT("E " \o ToJson([proj |-> proj, banned |-> banned, content |-> Content, occurs |-> Occurs,
